@@ -33,8 +33,8 @@ AllDevs == {"relu_clip_negmax", "clip_clip_disjoint", "relu_clip_no_dtype_raise"
             "clip_inputs_pre_opset11", "expand_rank_extension", "expand_binop_drops_attrs",
             "materialize_allowzero", "slice_split_odd", "split_num_outputs_pre_opset18",
             "flatten_zero_dim", "reshape_matmul_ignores_inner_shapes", "matmul_add_gemm_bias_shape",
-            "gemm_matmul_add_ignores_attrs", "gemm_matmul_add_bias_shape"}
-AllFamilies == {"relus_clips", "min_max", "no_op", "dropout", "cast_cos", "scatter_static", "scatter_dynamic", "expand_binop", "materialize", "collapse_slices", "casts", "no_op_expand", "reshape_reshape", "flatten", "slice_split", "transposes", "unsqueeze2", "squeeze_reshape", "matmul_reshape", "matmul_add_gemm", "gemm_matmul_add", "optional_bias"}
+            "gemm_matmul_add_ignores_attrs", "gemm_matmul_add_bias_shape", "pad_convinteger_zero_point", "autopad_ignores_dilation"}
+AllFamilies == {"relus_clips", "min_max", "no_op", "dropout", "cast_cos", "scatter_static", "scatter_dynamic", "expand_binop", "materialize", "collapse_slices", "casts", "no_op_expand", "reshape_reshape", "flatten", "slice_split", "transposes", "unsqueeze2", "squeeze_reshape", "matmul_reshape", "matmul_add_gemm", "gemm_matmul_add", "optional_bias", "pad_conv"}
 Big == Menu = "thorough"
 
 RAISE == [dt |-> "RAISE", shape |-> <<>>, data |-> <<>>]
@@ -719,6 +719,121 @@ UU_Params(z) == {q \in UU_AllParams(0) : q.a1 >= -(Len(q.xs) + 1) /\ q.a1 <= Len
 SQ_Params(z) == {q \in SQ_AllParams(0) : ~q.axes \/ q.xs[1] = 1}
 
 -----------------------------------------------------------------------------
+(* pad_conv: _fuse_pad_into_conv.py   1-D integer convolution: x [N, C, L], w [M, C, k]                          *)
+(*   fuse:      Conv(Pad(x, pads, [value], [axes]), w; pads, strides, dilations, auto_pad) -> Conv(x, w; pads')  *)
+(*   normalize: Conv(x, w; auto_pad = VALID or SAME_UPPER or SAME_LOWER) ->  Conv(x, w; auto_pad = NOTSET, pads)                   *)
+(* ConvInteger: contributions are (x - x_zero_point) * w, padded positions hold the zero point                  *)
+PC_Pad(x, pb, pe, nb, val, mode) ==
+   LET N == x.shape[1] C == x.shape[2] L == x.shape[3] IN
+   IF L + pb + pe < 0 THEN ERR
+   ELSE LET Op(idx) == LET n == idx[1] - nb  i == idx[3] - pb IN
+                       IF mode = "edge" THEN At(x, <<Clamp(n, 0, N - 1), idx[2], Clamp(i, 0, L - 1)>>)
+                       ELSE IF n < 0 \/ i < 0 \/ i >= L THEN val ELSE At(x, <<n, idx[2], i>>)
+        IN FromFn(x.dt, <<N + nb, C, L + pb + pe>>, Op)
+PC_Conv(x, w, pb, pe, s, d, zp, odt) ==
+   IF IsErr(x) THEN ERR
+   ELSE LET N == x.shape[1] C == x.shape[2] L == x.shape[3] M == w.shape[1] k == w.shape[3]
+            keff == (k - 1) * d + 1
+            Lp == L + pb + pe
+        IN IF Lp < keff THEN ERR
+           ELSE LET out == (Lp - keff) \div s + 1
+                    Xv(n, c, i) == IF i < pb \/ i >= pb + L THEN zp ELSE At(x, <<n, c, i - pb>>)
+                    Op(idx) == SeqSum([c \in 1..C |-> SeqSum([j \in 1..k |->
+                                   (Xv(idx[1], c - 1, idx[3] * s + (j - 1) * d) - zp) * At(w, <<idx[2], c - 1, j - 1>>)])])
+                IN FromFn(odt, <<N, M, out>>, Op)
+\* auto_pad as the operator defines it (effective kernel includes the dilation)
+PC_AutoPads(L, k, s, d, auto) ==
+   IF auto \in {"SAME_UPPER", "SAME_LOWER"}
+   THEN LET out == CeilDiv(L, s)
+            tot == Max2(0, (out - 1) * s + (k - 1) * d + 1 - L)
+            small == tot \div 2 big == tot - small
+        IN IF auto = "SAME_UPPER" THEN <<small, big>> ELSE <<big, small>>
+   ELSE <<0, 0>>
+NOPADS == <<-1, -1>>
+PC_F(op, L, k, pb, pe, nb, af, cv, mode, cp, s, d, auto, zp, pk, dc) ==
+   [kind |-> "fuse", op |-> op, L |-> L, k |-> k, pb |-> pb, pe |-> pe, nb |-> nb, axesform |-> af, cval |-> cv, mode |-> mode,
+    cpads |-> cp, s |-> s, d |-> d, auto |-> auto, zp |-> zp, pkind |-> pk, decl |-> dc, kattr |-> FALSE, odecl |-> "static"]
+PC_N(op, L, k, s, d, auto, ka, dc, od, cp) ==
+   [kind |-> "normalize", op |-> op, L |-> L, k |-> k, pb |-> 0, pe |-> 0, nb |-> 0, axesform |-> "full", cval |-> NONE, mode |-> "absent",
+    cpads |-> cp, s |-> s, d |-> d, auto |-> auto, zp |-> NONE, pkind |-> "init", decl |-> dc, kattr |-> ka, odecl |-> od]
+PC_AllParams(z) ==
+   \* fuse: the pads arithmetic
+   {PC_F(op, 4, k, pb, pe, 0, "full", NONE, "absent", cp, s, d, "absent", NONE, "init", "static") :
+        op \in {"Conv", "ConvInteger"}, k \in {1, 2}, pb \in 0..2, pe \in 0..2, cp \in {NOPADS, <<1, 0>>}, s \in {1, 2}, d \in {1, 2}}
+   \* fuse: the side conditions, one at a time around a firing core
+   \cup {PC_F(op, 4, 2, pb, 1, nb, af, cv, "absent", NOPADS, 1, 1, "absent", NONE, "init", "static") :
+        op \in {"Conv", "ConvInteger"}, pb \in {1, -1}, nb \in {0, 1}, af \in {"full", "axes_pos", "axes_neg"}, cv \in {NONE, 0, 1}}
+   \cup {PC_F(op, 4, 2, 1, pe, 0, "full", NONE, mode, NOPADS, 1, 1, auto, zp, "init", "static") :
+        op \in {"Conv", "ConvInteger"}, pe \in {0, 1}, mode \in {"absent", "constant", "edge"}, auto \in {"absent", "NOTSET", "VALID", "SAME_UPPER"}, zp \in {NONE, 0, 3}}
+   \cup {PC_F(op, 4, 2, 1, 1, 0, "full", cv, "absent", NOPADS, 1, 1, "absent", NONE, pk, dc) :
+        op \in {"Conv", "ConvInteger"}, cv \in {NONE, 0}, pk \in Kinds, dc \in {"static", "sym", "none"}}
+   \* normalize
+   \cup {PC_N(op, L, k, s, d, auto, ka, "static", "static", NOPADS) :
+        op \in {"Conv", "ConvInteger"}, L \in 3..5, k \in 1..3, s \in {1, 2}, d \in {1, 2},
+        auto \in {"absent", "NOTSET", "VALID", "SAME_UPPER", "SAME_LOWER"}, ka \in BOOLEAN}
+   \cup {PC_N("Conv", 4, 2, 1, 1, auto, FALSE, dc, od, cp) :
+        auto \in {"NOTSET", "VALID", "SAME_UPPER"}, dc \in {"static", "sym", "none"}, od \in {"static", "sym", "unk"}, cp \in {NOPADS, <<1, 0>>}}
+PC_IsInt(q) == q.op = "ConvInteger"
+PC_Zp(q) == IF q.zp = NONE THEN 0 ELSE q.zp
+PC_X(q) == T(IF PC_IsInt(q) THEN "u8" ELSE "f32", <<1, 2, q.L>>, [i \in 1..(2 * q.L) |-> IF PC_IsInt(q) THEN i ELSE i - 3])
+PC_W(q) == T(IF PC_IsInt(q) THEN "u8" ELSE "f32", <<1, 2, q.k>>, [i \in 1..(2 * q.k) |-> IF PC_IsInt(q) THEN i ELSE 2 * i - 3])
+PC_ODt(q) == IF PC_IsInt(q) THEN "i32" ELSE "f32"
+PC_CPads(q) == IF q.cpads = NOPADS THEN <<0, 0>> ELSE q.cpads
+\* the Conv node of the host applied to t (the Pad output, or x)
+PC_HostConv(q, t) ==
+   IF IsErr(t) THEN ERR
+   ELSE LET ap == IF q.auto \in {"SAME_UPPER", "SAME_LOWER"} THEN PC_AutoPads(t.shape[3], q.k, q.s, q.d, q.auto)
+                  ELSE IF q.auto = "VALID" THEN <<0, 0>> ELSE PC_CPads(q)
+        IN PC_Conv(t, PC_W(q), ap[1], ap[2], q.s, q.d, PC_Zp(q), PC_ODt(q))
+\* hosts not generated: zero point on a float Conv; pads attribute together with auto_pad; nothing else
+PC_HostValid(q) == /\ (q.zp # NONE => PC_IsInt(q))
+                   /\ (q.cpads # NOPADS => q.auto \in {"absent", "NOTSET"})
+                   /\ (q.kind = "normalize" => q.zp = NONE)
+PC_Lhs(q) == IF ~PC_HostValid(q) THEN ERR
+             ELSE IF q.kind = "fuse"
+             THEN PC_HostConv(q, PC_Pad(PC_X(q), q.pb, q.pe, q.nb, IF q.cval = NONE THEN 0 ELSE q.cval, q.mode))
+             ELSE PC_HostConv(q, PC_X(q))
+\* output length of the host's Conv (shape arithmetic only), -1 when the host is not runnable
+PC_OutLen(q) == LET lin == q.L + q.pb + q.pe IN
+                IF lin < 0 THEN -1
+                ELSE IF q.auto \in {"SAME_UPPER", "SAME_LOWER"} THEN (IF lin = 0 THEN -1 ELSE CeilDiv(lin, q.s))
+                ELSE LET lp == lin + (IF q.auto = "VALID" THEN 0 ELSE PC_CPads(q)[1] + PC_CPads(q)[2])
+                         keff == (q.k - 1) * q.d + 1
+                     IN IF lp < keff THEN -1 ELSE (lp - keff) \div q.s + 1
+PC_Params(z) == {q \in PC_AllParams(0) : PC_HostValid(q) /\ PC_OutLen(q) >= 1}
+PC_XDecl(q) == CASE q.decl = "static" -> <<1, 2, q.L>> [] q.decl = "sym" -> <<1, 2, SymN>> [] q.decl = "none" -> NOSHP
+PC_ODecl(q) == LET o == <<1 + q.nb, 1, PC_OutLen(q)>> IN CASE q.odecl = "static" -> o [] q.odecl = "sym" -> <<o[1], o[2], SymM>> [] q.odecl = "unk" -> <<UNK, UNK, UNK>>
+PC_Match(q, devs) == TRUE
+PC_Check(q, devs) ==
+   IF q.kind = "fuse"
+   THEN IF PC_XDecl(q) = NOSHP THEN "fail"
+        ELSE IF q.mode = "edge" THEN "fail"
+        ELSE IF ~HasConstValue(q.pkind, devs) THEN "fail"                   \* pads (and value, axes) must be constants
+        ELSE IF q.cval # NONE /\ q.cval # 0 THEN "fail"
+        ELSE IF q.nb # 0 THEN "fail"                                         \* padding outside the spatial dims
+        ELSE IF q.pb < 0 \/ q.pe < 0 THEN "fail"
+        ELSE IF q.auto \notin {"absent", "NOTSET"} THEN "fail"
+        \* design: explicit zeros are not what ConvInteger pads with when the zero point is not 0
+        ELSE IF "pad_convinteger_zero_point" \notin devs /\ PC_IsInt(q) /\ PC_Zp(q) # 0 /\ (q.pb > 0 \/ q.pe > 0) THEN "fail"
+        ELSE "ok"
+   ELSE IF q.auto \in {"absent", "NOTSET"} THEN "fail"
+        ELSE IF PC_XDecl(q) = NOSHP THEN "fail"
+        ELSE IF q.auto = "VALID" THEN "ok"
+        ELSE IF IsSym(PC_XDecl(q)[3]) \/ IsSym(PC_ODecl(q)[3]) THEN "fail"
+        \* design: the pads of SAME_UPPER / SAME_LOWER depend on the dilation
+        ELSE IF "autopad_ignores_dilation" \notin devs /\ q.d # 1 /\ q.k > 1 THEN "fail"
+        ELSE "ok"
+PC_Rewrite(q, devs) ==
+   IF q.kind = "fuse"
+   THEN Res(PC_Conv(PC_X(q), PC_W(q), q.pb + PC_CPads(q)[1], q.pe + PC_CPads(q)[2], q.s, q.d, PC_Zp(q), PC_ODt(q)), TRUE)
+   ELSE LET L == q.L  y == PC_OutLen(q)
+            tot == Max2(0, (y - 1) * q.s + (IF "autopad_ignores_dilation" \in devs THEN q.k ELSE (q.k - 1) * q.d + 1) - L)
+            p1 == tot \div 2  p2 == tot - p1
+            pads == IF q.auto = "VALID" THEN <<0, 0>> ELSE IF q.auto = "SAME_UPPER" THEN <<p1, p2>> ELSE <<p2, p1>>
+        IN Res(PC_Conv(PC_X(q), PC_W(q), pads[1], pads[2], q.s, q.d, 0, PC_ODt(q)), TRUE)
+PC_Unknown(q) == q.decl = "none" \/ q.pkind \in {"ginput", "ginit"} \/ (q.kind = "normalize" /\ q.auto \in {"SAME_UPPER", "SAME_LOWER"} /\ (q.decl # "static" \/ q.odecl # "static"))
+
+-----------------------------------------------------------------------------
 (* Gemm on integers (alpha, beta integers); NoT = optional input absent *)
 NoT == [dt |-> "NONE", shape |-> <<>>, data |-> <<>>]
 Tr2(t) == Transpose(t, <<1, 0>>)
@@ -825,6 +940,7 @@ ParamsOf(f) == CASE f = "relus_clips" -> RC_Params(0)
       [] f = "matmul_add_gemm" -> MG_Params(0)
       [] f = "gemm_matmul_add" -> GM_Params(0)
       [] f = "optional_bias" -> OB_Params(0)
+      [] f = "pad_conv" -> PC_Params(0)
       [] f = "expand_binop" -> EX_Params(0)
       [] f = "materialize" -> MR_Params(0)
       [] f = "collapse_slices" -> CS_Params(0)
@@ -847,6 +963,7 @@ LhsOf(f, q) == CASE f = "relus_clips" -> RC_Lhs(q)
       [] f = "matmul_add_gemm" -> MG_Lhs(q)
       [] f = "gemm_matmul_add" -> GM_Lhs(q)
       [] f = "optional_bias" -> OB_Lhs(q)
+      [] f = "pad_conv" -> PC_Lhs(q)
       [] f = "expand_binop" -> EX_Lhs(q)
       [] f = "materialize" -> MR_Lhs(q)
       [] f = "collapse_slices" -> CS_Lhs(q)
@@ -869,6 +986,7 @@ MatchOf(f, q, d) == CASE f = "relus_clips" -> RC_Match(q, d)
       [] f = "matmul_add_gemm" -> MG_Match(q, d)
       [] f = "gemm_matmul_add" -> GM_Match(q, d)
       [] f = "optional_bias" -> TRUE
+      [] f = "pad_conv" -> PC_Match(q, d)
       [] f = "expand_binop" -> EX_Match(q, d)
       [] f = "materialize" -> MR_Match(q, d)
       [] f = "collapse_slices" -> CS_Match(q, d)
@@ -891,6 +1009,7 @@ CheckOf(f, q, d) == CASE f = "relus_clips" -> RC_Check(q, d)
       [] f = "matmul_add_gemm" -> MG_Check(q, d)
       [] f = "gemm_matmul_add" -> GM_Check(q, d)
       [] f = "optional_bias" -> OB_Check(q, d)
+      [] f = "pad_conv" -> PC_Check(q, d)
       [] f = "expand_binop" -> EX_Check(q, d)
       [] f = "materialize" -> MR_Check(q, d)
       [] f = "collapse_slices" -> CS_Check(q, d)
@@ -913,6 +1032,7 @@ RewriteOf(f, q, d) == CASE f = "relus_clips" -> RC_Rewrite(q, d)
       [] f = "matmul_add_gemm" -> MG_Rewrite(q, d)
       [] f = "gemm_matmul_add" -> GM_Rewrite(q, d)
       [] f = "optional_bias" -> OB_Rewrite(q, d)
+      [] f = "pad_conv" -> PC_Rewrite(q, d)
       [] f = "expand_binop" -> EX_Rewrite(q, d)
       [] f = "materialize" -> MR_Rewrite(q, d)
       [] f = "collapse_slices" -> CS_Rewrite(q, d)
@@ -935,6 +1055,7 @@ UnknownOf(f, q) == CASE f = "relus_clips" -> RC_Unknown(q)
       [] f = "matmul_add_gemm" -> MG_Unknown(q)
       [] f = "gemm_matmul_add" -> GM_Unknown(q)
       [] f = "optional_bias" -> OB_Unknown(q)
+      [] f = "pad_conv" -> PC_Unknown(q)
       [] f = "expand_binop" -> EX_Unknown(q)
       [] f = "materialize" -> MR_Unknown(q)
       [] f = "collapse_slices" -> CS_Unknown(q)
@@ -963,6 +1084,7 @@ AuxOf(f, q) ==
      [] f = "matmul_add_gemm" -> [ad |-> Decl(q.decl, MG_AS(q)), bd |-> IF q.decl = "none" THEN MG_BS(q) ELSE Decl(q.decl, MG_BS(q)),
                                   ashape |-> MG_AS(q), bshape |-> MG_BS(q)]
      [] f = "gemm_matmul_add" -> [bshape |-> GM_BS(q)]
+     [] f = "pad_conv" -> [xd |-> PC_XDecl(q), od |-> PC_ODecl(q)]
      [] f = "scatter_dynamic" -> [dd |-> SD_DataDecl(q), tdd |-> SD_TdDecl(q), perm |-> SD_Perm(q), tds |-> SD_TdShape(q), us |-> SD_UpdShape(q)]
      [] f = "scatter_static" -> [dd |-> SC_Decl(q.dd, q.ds), ud |-> SC_Decl(q.ud, SC_Us(q))]
      [] OTHER -> [none |-> 0]
@@ -992,6 +1114,7 @@ DevsOf(f) == CASE f = "relus_clips" -> {"relu_clip_negmax", "clip_clip_disjoint"
                [] f = "matmul_add_gemm" -> {"matmul_add_gemm_bias_shape"}
                [] f = "gemm_matmul_add" -> {"gemm_matmul_add_ignores_attrs", "reshape_matmul_ignores_inner_shapes", "gemm_matmul_add_bias_shape"}
                [] f = "optional_bias" -> {"overridable_read_as_const"}
+               [] f = "pad_conv" -> {"overridable_read_as_const", "pad_convinteger_zero_point", "autopad_ignores_dilation"}
                [] f \in {"collapse_slices", "no_op_expand", "reshape_reshape", "unsqueeze2", "squeeze_reshape", "scatter_dynamic"} -> {"overridable_read_as_const"}
                [] OTHER -> {}
 Why(f, q) == {d \in Deviations \cap DevsOf(f) : Attempt(f, q, Deviations \ {d}) # Attempt(f, q, Deviations)}
